@@ -162,6 +162,7 @@ struct Args {
     no_known_lines: bool,
     repo_state: String,
     reenter_note: String,
+    long_runs: Option<u64>,
 }
 
 fn parse_args() -> Result<Args, String> {
@@ -191,6 +192,7 @@ fn parse_args() -> Result<Args, String> {
         no_known_lines: false,
         repo_state: "unknown".into(),
         reenter_note: String::new(),
+        long_runs: None,
     };
     let mut it = std::env::args().skip(1);
     a.cmd = it.next().ok_or("usage: semver-dst <check|replay> ...")?;
@@ -218,6 +220,7 @@ fn parse_args() -> Result<Args, String> {
             "--write-summary" => a.write_summary = Some(PathBuf::from(val("--write-summary")?)),
             "--class" => a.class = Some(val("--class")?),
             "--no-known-lines" => a.no_known_lines = true,
+            "--long-runs" => a.long_runs = Some(val("--long-runs")?.parse().map_err(|e| format!("--long-runs: {}", e))?),
             "--repo-state" => a.repo_state = val("--repo-state")?,
             "--strict-reentrancy" | "--strict-advisory" => run::STRICT_ADVISORY.store(true, std::sync::atomic::Ordering::Relaxed),
             "--no-reenter" => {
@@ -259,6 +262,32 @@ fn main() {
             None => 2,
         },
         "sequential-find" => cmd_sequential_find(&args),
+        "gen-stats" => {
+            // triage aid: how many distinct printed forms do N generated values have?
+            let prop = args.prop.unwrap_or(Prop::C12);
+            let n = args.runs.unwrap_or(100_000);
+            let mut set = std::collections::BTreeSet::new();
+            let mut stats = Stats::default();
+            let mut viol = 0u64;
+            let mut classes: std::collections::BTreeMap<String, u64> = Default::default();
+            for i in 0..n {
+                let out = sim::search_run(prop, args.seed, i, args.fault_free_only, &mut stats);
+                for v in &out.violations {
+                    *classes.entry(v.class.clone()).or_insert(0u64) += 1;
+                }
+                if !out.violations.is_empty() {
+                    viol += 1;
+                    if viol < 1 {
+                        println!("run {}: {} - {}", i, out.violations[0].class, out.violations[0].detail.chars().take(160).collect::<String>());
+                    }
+                }
+                if let Some(p) = out.summary.get("printed") {
+                    set.insert(p.to_string());
+                }
+            }
+            println!("{} runs, {} distinct printed records, {} runs with violations {:?}", n, set.len(), viol, classes);
+            0
+        }
         other => {
             eprintln!("HARNESS-ERROR: unknown command {:?}", other);
             2
@@ -494,12 +523,16 @@ fn cmd_check(args: &Args) -> i32 {
     // 2b. seeded multi-fault search
     let se = sim::run_search(prop, args.seed, runs, args.workers, args.fault_free_only, args.dump_digests.is_some());
     // 2c. long history: one thread, tens of thousands of runs in a row
-    let long_runs: u64 = if args.fault_free_only || args.no_enum {
+    let long_runs: u64 = if let Some(n) = args.long_runs {
+        n
+    } else if args.fault_free_only || args.no_enum {
         0
     } else {
-        // single-threaded, about 60 us (versions) / 250 us (ranges) per run: thorough tier only
+        // single-threaded, about 60 us (versions) / 250 us (ranges) per run: a short one in the
+        // quick tier for versions, the long ones in the thorough tier
         match (prop, thorough) {
-            (_, false) => 0,
+            (Prop::C12, false) => 150_000,
+            (Prop::C13, false) => 0,
             (Prop::C12, true) => 1_000_000,
             (Prop::C13, true) => 300_000,
         }
